@@ -224,6 +224,8 @@ def exc_code(e):
         return [4]
     if isinstance(e, FailingIterable):
         return [5]
+    if isinstance(e, OverflowError):
+        return [6]       # what list.insert() raises for an integer beyond ssize_t
     return [98]
 
 
@@ -301,7 +303,7 @@ def apply_op(ctx, op):
         elif name == "delslice":
             del S[op[3]:op[4]]
         elif name == "xinsert":        # oracle-only stream: an index that is not an int
-            S.insert({"str": "0", "none": None, "float": 1.5}[op[3]], ctx.pool[op[4]])
+            S.insert({"str": "0", "none": None, "float": 1.5, "huge": 2 ** 70, "neghuge": -2 ** 70}[op[3]], ctx.pool[op[4]])
         elif name == "xsetslice":      # oracle-only stream: extended slices and mixin methods
             S[op[3]:op[4]:op[5]] = [ctx.pool[e] for e in op[6]]
         elif name == "xdelslice":
@@ -759,7 +761,7 @@ def gen_case(rng, kind, maxlen, extra=False):
                 op = ("xdelslice", o, j, a, b, st)
             elif y < 0.45:
                 free = [i for i, y_ in enumerate(ctx.pool) if y_.parent is None] or list(range(n))
-                op = ("xinsert", o, j, rng.choice(["str", "none", "float"]), rng.choice(free))
+                op = ("xinsert", o, j, rng.choice(["str", "none", "float", "huge", "huge", "neghuge"]), rng.choice(free))
             elif y < 0.6:
                 op = ("append", o, j, e)
             elif y < 0.7:
